@@ -36,7 +36,8 @@ def bool_coercion_rule(chk, repo, clause='C11-b'):
                     # handing the mask on to another function of the module (which coerces it itself) is not a use
                     vals += [v for k_, v in (e.data.get('bound') or {}).items() if not (k_ == 'mask' and v == S('mask'))]
                 elif e.kind == 'call' and str(e.data.get('callee')) not in ('ext:numpy.asarray', 'ext:numpy.array', 'ext:numpy.asanyarray',
-                                                                            'ext:numpy.ascontiguousarray', 'ext:numpy.shape', 'ext:numpy.ndim'):
+                                                                            'ext:numpy.ascontiguousarray', 'ext:numpy.shape', 'ext:numpy.ndim',
+                                                                            'ext:functools.partial'):      # partial(f, mask, ..): handed on to f
                     vals += [a_ for a_ in (e.data.get('args') or []) if a_ is not None]
                     vals += [a_ for a_ in (e.data.get('kwargs') or {}).values() if a_ is not None]
             for c, _, _ in p.conds:
